@@ -15,7 +15,7 @@ import AsyncsshModel.Model.ChannelText
                                        endpoint: `ProtocolError('Channel not open')` unless the receive half is
                                        open / eof_pending / eof, else answered with CHANNEL_FAILURE (`msgs=F`,
                                        nothing if the send half is close_pending / closed) and NOTHING else
-                                       happens (`SSHServerChannel._start_session`, repair b98700f)
+                                       happens (`SSHServerChannel._start_session`, repair e7dbee0)
    dec <hex> ...                       the UTF-8 decoder alone, one chunk per argument
    tenc <codec> <cp.cp...|-> ...       one incremental encoder, one argument per write: bytes per write
    tfresh <codec> <cp.cp...|-> ...     every write encoded on its own
